@@ -19,7 +19,7 @@ theorem illegal_lengths_rejected (n : Net) (h : validatePrefix n = .ok) :
   unfold validatePrefix at h
   cases hv : n.v6 <;> simp [hv] at h
   by_cases hl : isLegal n.bits = true
-  · simp only [hl, Bool.not_true, Bool.false_eq_true, if_false] at h
+  · simp only [hl] at h
     refine ⟨rfl, by simpa [isLegal, legalBits] using hl, ?_⟩
     intro h96 hlen
     by_cases hb : bAt n.ip 8 = 0
@@ -208,6 +208,30 @@ theorem dnssec_failure_iff (m : Down) :
   unfold isDNSSECFailure dnssecEDE
   simp [and_assoc]
 
+/-- `clientEligible`: an empty list admits everyone, otherwise membership in one configured network. -/
+theorem client_eligible_iff (c : Cfg) (ip : IP) :
+    c.clientEligible ip = true ↔ c.clients = [] ∨ ∃ n ∈ c.clients, n.contains ip = true := by
+  unfold Cfg.clientEligible
+  cases hc : c.clients with
+  | nil => simp
+  | cons x t => simp
+
+/-- `zoneExcluded` matches the zone itself or a name ending in `.zone` — on a label boundary only. -/
+theorem zone_excluded_iff (c : Cfg) (qname : Name) :
+    c.zoneExcluded qname = true ↔ ∃ z ∈ c.zones, qname = z ∨ ∃ pre, qname = pre ++ '.' :: z := by
+  unfold Cfg.zoneExcluded hasSuffix
+  simp only [List.any_eq_true, Bool.or_eq_true, beq_iff_eq, List.isSuffixOf_iff_suffix]
+  constructor
+  · rintro ⟨z, hz, h | ⟨pre, h⟩⟩
+    · exact ⟨z, hz, Or.inl h⟩
+    · exact ⟨z, hz, Or.inr ⟨pre, h.symm⟩⟩
+  · rintro ⟨z, hz, h | ⟨pre, h⟩⟩
+    · exact ⟨z, hz, Or.inl h⟩
+    · exact ⟨z, hz, Or.inr ⟨pre, h.symm⟩⟩
+
+example : ({ zones := ["example.org.".toList] } : Cfg).zoneExcluded "host.example.org.".toList = true := by decide
+example : ({ zones := ["example.org.".toList] } : Cfg).zoneExcluded "badexample.org.".toList = false := by decide
+
 /-- The writer is wrapped (synthesis can be considered at all) exactly when
 every request-side gate is open. -/
 theorem gate_wrap_iff (c : Cfg) (q : Query) :
@@ -305,21 +329,6 @@ theorem synth_only_when_allowed (c : Cfg) (q : Query) (down : Option Down) (a : 
 
 /-! ## what is synthesised -/
 
-theorem mem_synthAAAA (c : Cfg) (addrs : List RR) (ttl : Nat) (r : RR) :
-    r ∈ synthAAAA c addrs ttl ↔
-      ∃ p ∈ c.prefixes, ∃ x ∈ addrs, x.ip.length = 4 ∧ c.shouldExcludeAOnPrefix x.ip p = false ∧
-        r = { kind := '6', ttl := ttl, owner := x.owner, ip := embedIPv4 p.net.ip p.net.bits x.ip } := by
-  unfold synthAAAA
-  simp only [List.mem_flatMap, List.mem_filterMap]
-  constructor
-  · rintro ⟨p, hp, x, hx, hr⟩
-    by_cases hl : x.ip.length = 4
-    · cases he : c.shouldExcludeAOnPrefix x.ip p <;> simp [hl, he] at hr
-      exact ⟨p, hp, x, hx, hl, he, hr.symm⟩
-    · simp [hl] at hr
-  · rintro ⟨p, hp, x, hx, hl, he, rfl⟩
-    exact ⟨p, hp, x, hx, by simp [hl, he]⟩
-
 /-- **Synthesised records are exactly RFC 6052 embeddings of the A records.**
 In a synthesised reply every AAAA record is the embedding of one A record of
 the secondary answer into one configured prefix, is owned by that A record's
@@ -379,7 +388,7 @@ theorem synth_complete (c : Cfg) (q : Query) (down : Option Down) (a : AResp)
   rw [s.2.2.2.2]
   intro p hp x hx h4 hl he
   refine ⟨_, List.mem_append_right _ ((mem_synthAAAA c _ _ _).mpr
-    ⟨p, hp, x, List.mem_filter.mpr ⟨hx, by simp [addrsOf, h4]⟩, hl, he, rfl⟩), rfl, rfl, rfl⟩
+    ⟨p, hp, x, List.mem_filter.mpr ⟨hx, by simp [h4]⟩, hl, he, rfl⟩), rfl, rfl, rfl⟩
 
 /-- **Excluded IPv4 ranges are skipped under the well-known prefix only.** -/
 theorem wkp_exclusions_skipped (c : Cfg) (v4 : IP) (p : Prefix) :
